@@ -29,7 +29,12 @@ func main() {
 	shrinkBudget := flag.Int("shrink", 3000, "max executions spent shrinking one violation")
 	verbose := flag.Bool("v", false, "verbose")
 	build := flag.String("build", "", "name of the build variant (recorded in replay files)")
+	dump := flag.Int64("dump", -1, "print the script of run index N and exit")
 	flag.Parse()
+	if *dump >= 0 {
+		dumpScript(*prop, *seed, uint64(*dump), *tier)
+		return
+	}
 
 	if *replay != "" {
 		os.Exit(doReplay(*replay, *verbose))
@@ -98,8 +103,26 @@ func main() {
 			if seenViol[key] || len(res.Violations) >= 8 {
 				continue
 			}
-			min, mv, execs := sim.Shrink(sc, e.Exec, o.V, *shrinkBudget)
 			seenViol[key] = true
+			min, mv, execs := sim.Script(sc), o.V, 0
+			fatal := strings.HasPrefix(o.V.Oracle, "sched.") // deadlock / step cap: tasks are still parked, stop this worker
+			switch {
+			case o.V.Oracle == "race" || fatal:
+				// the race detector reports a given race once per process, so the script cannot
+				// be re-executed here; the driver confirms the replay in a fresh process
+				if e.Concretize != nil {
+					min = e.Concretize(sc, o)
+				}
+			default:
+				start := sim.Script(sc)
+				if e.Concretize != nil {
+					c := e.Concretize(sc, o)
+					if oc := e.Exec(c); oc.V != nil && oc.V.Oracle == o.V.Oracle && oc.V.Class == o.V.Class {
+						start = c
+					}
+				}
+				min, mv, execs = sim.Shrink(start, e.Exec, o.V, *shrinkBudget)
+			}
 			mkey := mv.Oracle + "|" + mv.Class
 			if seenViol["min:"+mkey] {
 				continue
@@ -114,6 +137,10 @@ func main() {
 				os.Exit(2)
 			}
 			res.Violations = append(res.Violations, sim.FoundViolation{RunIndex: i, RunSeed: rs, V: mv, ReplayPath: path, ShrinkExecs: execs, OrigLen: sc.Len(), MinLen: min.Len(), Build: *build})
+			if fatal {
+				res.StoppedBy = "fatal-scheduler-error"
+				break
+			}
 		}
 	}
 	if len(res.Samples) == 0 && res.Runs > 0 {
